@@ -65,6 +65,14 @@ type ModuleLevel struct {
 	Isvsvn uint32
 	Status string
 	Date   string
+	RawSvn string // see QeLevel.RawSvn
+}
+
+func svnText(v uint32, raw string) string {
+	if raw != "" {
+		return raw
+	}
+	return fmt.Sprint(v)
 }
 
 // ModuleIdentity is one entry of tcbInfo.tdxModuleIdentities.
@@ -159,6 +167,7 @@ type QeLevel struct {
 	Isvsvn uint32
 	Status string
 	Date   string
+	RawSvn string // when non-empty, rendered verbatim as the isvsvn value (numbers the field cannot hold, other JSON types)
 }
 
 func dateOr(d string) string {
@@ -185,6 +194,7 @@ type QeIdentityDoc struct {
 	AttributesMask []byte
 	Mrsigner       []byte
 	IsvProdID      uint16
+	RawIsvProdID   string // when non-empty, rendered verbatim as the isvprodid value
 	Levels         []QeLevel
 	UpperHex       bool
 }
@@ -201,13 +211,17 @@ func (d *QeIdentityDoc) hx(b []byte) string {
 func (d *QeIdentityDoc) Render() []byte {
 	var sb strings.Builder
 	fmt.Fprintf(&sb, `{"id":%q,"version":%d,"issueDate":%q,"nextUpdate":%q,"tcbEvaluationDataNumber":17,`, d.ID, d.Version, ts(d.IssueDate), ts(d.NextUpdate))
-	fmt.Fprintf(&sb, `"miscselect":%q,"miscselectMask":%q,"attributes":%q,"attributesMask":%q,"mrsigner":%q,"isvprodid":%d,"tcbLevels":[`,
-		d.hx(d.Miscselect), d.hx(d.MiscselectMask), d.hx(d.Attributes), d.hx(d.AttributesMask), d.hx(d.Mrsigner), d.IsvProdID)
+	prod := fmt.Sprint(d.IsvProdID)
+	if d.RawIsvProdID != "" {
+		prod = d.RawIsvProdID
+	}
+	fmt.Fprintf(&sb, `"miscselect":%q,"miscselectMask":%q,"attributes":%q,"attributesMask":%q,"mrsigner":%q,"isvprodid":%s,"tcbLevels":[`,
+		d.hx(d.Miscselect), d.hx(d.MiscselectMask), d.hx(d.Attributes), d.hx(d.AttributesMask), d.hx(d.Mrsigner), prod)
 	for i, l := range d.Levels {
 		if i > 0 {
 			sb.WriteString(",")
 		}
-		fmt.Fprintf(&sb, `{"tcb":{"isvsvn":%d},"tcbDate":%q,"tcbStatus":%q}`, l.Isvsvn, dateOr(l.Date), l.Status)
+		fmt.Fprintf(&sb, `{"tcb":{"isvsvn":%s},"tcbDate":%q,"tcbStatus":%q}`, svnText(l.Isvsvn, l.RawSvn), dateOr(l.Date), l.Status)
 	}
 	sb.WriteString("]}")
 	return []byte(sb.String())
